@@ -1101,6 +1101,8 @@ apply_op(struct op_s *o)
 
 static int same_due_n;
 static double same_due;
+static const char *wake_kind = "";
+static double wake_late;
 
 static double
 host_next_wake(double now, double due, int ioready)
@@ -1120,8 +1122,10 @@ host_next_wake(double now, double due, int ioready)
 	if (pt < now) {
 		pt = now;
 	}
+	wake_late = 0.;
 	if (ioready || nacceptq || nsigq) {
 		w = now + 0.0001 + 0.0004 * u01(hash3(P.seed, evm_iter(), 0x10));
+		wake_kind = "io";
 	} else if (due <= pt) {
 		/* timer driven wake-up: how late are we? */
 		uint64_t key = (uint64_t)(due * 1000. + 0.5);
@@ -1139,15 +1143,20 @@ host_next_wake(double now, double due, int ioready)
 		}
 		if (u < P.exact_p && same_due_n == 0) {
 			w = due;
+			wake_kind = "exact";
 		} else if (u < P.exact_p + P.late_p) {
 			w = due + 0.001 + v * P.late_max;
+			wake_kind = "late";
 		} else {
 			w = due + 0.001 + v * P.jit_max;
+			wake_kind = "timer";
 		}
+		wake_late = w - due;
 		/* pending child exits do wake the loop up on time though
 		 * (SIGCHLD); handled below by capping at the exit time */
 	} else if (pt < 1e299) {
 		w = pt + 0.0001 + 0.0009 * u01(hash3(P.seed, (uint64_t)(pt * 1000.), 0x300));
+		wake_kind = "op";
 	} else {
 		/* nothing left to do: the plan always ends in crash/signal */
 		h_begin("idle-end", now);
@@ -1159,11 +1168,13 @@ host_next_wake(double now, double due, int ioready)
 		double te = chlds[i].t_exit + chlds[i].delay;
 		if (!chlds[i].delivered && te > now && te < w) {
 			w = te + 0.0001;
+			wake_kind = "sigchld";
 		}
 	}
 	if (stall_next > 0.) {
 		w += stall_next;
 		stall_next = 0.;
+		wake_kind = "stall";
 	}
 	/* apply everything the outside world did up to W */
 	evm_set_now(w);
@@ -1173,6 +1184,7 @@ host_next_wake(double now, double due, int ioready)
 		if (stall_next > 0.) {
 			w += stall_next;
 			stall_next = 0.;
+			wake_kind = "stall";
 			evm_set_now(w);
 		}
 	}
@@ -1242,6 +1254,7 @@ host_iter(unsigned long it, double w)
 {
 	h_begin("iter", w);
 	h_int("n", it);
+	h_str("wk", wake_kind, -1);
 	h_end();
 }
 
